@@ -20,6 +20,9 @@ for every attribute and every class of value it can take (including the values n
 whose ONLY effective change is that attribute while a non-default pen is in force -- once by chpen {attr}, once by setpen of the
 whole logical pen with that attribute replaced: such a request must leave everything else on the terminal as it is.  The
 members of the sweep that run into a known finding are, again, placed at the end.
+About 30% of the x configurations run with an output buffer (`outbuf n`, n in 1..256, issued right after construction while nothing
+is pending) and `flush` after a request with probability 0.3 and at the end; half of them start with a short chpen that stays
+pending followed by a setpen whose SGR string is long and takes the attribute back.  No pause + resume in those histories.
 Tiers: quick, thorough (x10), exhaustive (every history of <= 3 requests over a pen basis, for every configuration).
 """
 import argparse, random, json, itertools, collections
